@@ -30,12 +30,13 @@ func (c15) Describe() CheckInfo {
 		Rule: "seeded directory trees (5-60 nodes, depth <= 4; excluded names vendor/testdata/.x/_x at any depth; look-alikes vendor2/testdata_old; directories named x.go; non-Go files; dot- and underscore-named Go files; symlinks to files, directories, dangling and cyclic; a fifo named like a Go file; unparseable Go files inside excluded directories) x 1-5 arguments (relative, absolute, ./, trailing / and ..., a/../a respellings, '.', overlapping, duplicated, files named explicitly inside excluded directories, non-Go files named explicitly), with a non-idempotent patch so that double processing shows in the bytes. " +
 			"Reference: a walk written from the property text. Each case is run in-place and with --print-only, then again with the arguments permuted and respelled and the readdir order reshuffled. distinct = distinct (tree-shape hash, argument-form multiset)",
 		Assumptions: []string{
-			"cases the text leaves open are not generated: an excluded-name directory given as the argument itself, arguments that are symlinks or pass through a symlinked directory, nonexistent paths (C16)",
+			"cases the text leaves open are not generated: an excluded-name directory given as the argument itself, arguments that pass through a symlinked directory, nonexistent paths (C16); a symlink named directly as an argument (with or without /...) is generated and expected to contribute nothing ('no symlinks')",
+			"two hard-linked names of one inode are two files: each is processed once",
 			"'processed' is judged by effects (bytes, print-only segment, created/modified nodes), not by how often a file is read",
 		},
 		RealCode:       []string{"gopatch main()/mainCmd.Run, findFiles/findGoFiles, internal/*"},
 		Stubs:          []string{"package os (simulated filesystem incl. symlinks, fifo, shuffled readdir)", "path/filepath Walk re-hosted on the simulated os", "io/ioutil"},
-		RequiredProbes: []string{"excluded-dir-nested", "symlink-to-dir", "symlink-to-file", "dir-named-like-go-file", "overlapping-args", "duplicate-args", "explicit-file-in-excluded-dir", "dotdot-respelling", "absolute-arg", "non-go-file", "absolute-noncanonical-arg", "readdir-shuffled", "permuted-rerun", "dot-named-go-file"},
+		RequiredProbes: []string{"excluded-dir-nested", "symlink-to-dir", "symlink-to-file", "dir-named-like-go-file", "overlapping-args", "duplicate-args", "explicit-file-in-excluded-dir", "dotdot-respelling", "absolute-arg", "non-go-file", "absolute-noncanonical-arg", "readdir-shuffled", "permuted-rerun", "dot-named-go-file", "hard-link", "non-directory-with-excluded-name", "symlink-argument"},
 	}
 }
 
@@ -78,6 +79,7 @@ func (c15) Gen(env *Env, seed uint64, tier string, i int) *Case {
 	}
 	id := 0
 	var gofiles, others, symlinks []string
+	broken := map[string]bool{}
 	insideExcluded := func(p string) bool {
 		rel := strings.TrimPrefix(p, ProjDir+"/")
 		parts := strings.Split(rel, "/")
@@ -140,8 +142,39 @@ func (c15) Gen(env *Env, seed uint64, tier string, i int) *Case {
 			p := d + "/" + fmt.Sprintf("dangling%d.go", id)
 			c.SetNode(world.NodeSpec{Path: p, Kind: "symlink", Target: "/sim/w/nowhere.go"})
 			symlinks = append(symlinks, p)
-		case roll < 97:
+		case roll < 96:
 			c.SetNode(world.NodeSpec{Path: d + "/" + fmt.Sprintf("pipe%d.go", id), Kind: "fifo"})
+		case roll < 98 && len(gofiles) > 0:
+			// a second name (hard link) for an existing Go file
+			t := gofiles[r.Intn(len(gofiles))]
+			if broken[t] {
+				continue
+			}
+			p := d + "/" + fmt.Sprintf("hl%d.go", id)
+			c.SetNode(world.NodeSpec{Path: p, Kind: "hardlink", Target: t})
+			gofiles = append(gofiles, p)
+			c.Extra["has_hardlink"] = "1"
+		case roll < 99:
+			// a NON-directory that carries an excluded directory's name
+			nm := r.Pick([]string{"vendor", "testdata", ".x", "_gen"})
+			p := d + "/" + nm
+			taken := false
+			for _, n := range c.Spec.Nodes {
+				if n.Path == p || strings.HasPrefix(n.Path, p+"/") {
+					taken = true
+				}
+			}
+			if taken {
+				continue
+			}
+			dirs2 := dirs[:0:0]
+			_ = dirs2
+			if r.Chance(1, 2) {
+				c.SetNode(world.NodeSpec{Path: p, Kind: "file", Data: []byte("not a directory\n")})
+			} else {
+				c.SetNode(world.NodeSpec{Path: p, Kind: "symlink", Target: dirs[r.Intn(len(dirs))]})
+			}
+			c.Extra["has_nondir_excluded_name"] = "1"
 		default:
 			p := d + "/" + fmt.Sprintf("f%d.go", id)
 			c.SetNode(world.NodeSpec{Path: p, Kind: "file", Data: c15GoFile(id)})
@@ -179,7 +212,11 @@ func (c15) Gen(env *Env, seed uint64, tier string, i int) *Case {
 			c.Targets = append(c.Targets, gofiles[r.Intn(len(gofiles))])
 		case roll < 85 && len(others) > 0:
 			c.Targets = append(c.Targets, others[r.Intn(len(others))])
-		case roll < 93 && len(c.Targets) > 0:
+		case roll < 90 && len(symlinks) > 0:
+			// a symlink named directly: never followed, nothing is processed through it
+			c.Targets = append(c.Targets, symlinks[r.Intn(len(symlinks))])
+			c.Extra["symlink_arg"] = "1"
+		case roll < 95 && len(c.Targets) > 0:
 			c.Targets = append(c.Targets, c.Targets[r.Intn(len(c.Targets))]) // duplicate
 		default:
 			c.Targets = append(c.Targets, ProjDir)
@@ -205,7 +242,7 @@ func c15Spell(abs []string, r *world.PRNG, c *Case) []string {
 		rel = strings.TrimPrefix(rel, "/")
 		isDir := false
 		for _, n := range c.Spec.Nodes {
-			if n.Path == a && n.Kind == "dir" {
+			if n.Path == a && (n.Kind == "dir" || (n.Kind == "symlink" && !strings.HasSuffix(n.Path, ".go"))) {
 				isDir = true
 			}
 		}
@@ -360,6 +397,15 @@ func (c15) Eval(env *Env, c *Case) []Violation {
 	}
 	if c.Extra["has_symlink_file"] == "1" {
 		env.Probe("symlink-to-file")
+	}
+	if c.Extra["has_hardlink"] == "1" {
+		env.Probe("hard-link")
+	}
+	if c.Extra["has_nondir_excluded_name"] == "1" {
+		env.Probe("non-directory-with-excluded-name")
+	}
+	if c.Extra["symlink_arg"] == "1" {
+		env.Probe("symlink-argument")
 	}
 	for i, a := range absargs {
 		for j, b := range absargs {
